@@ -15,6 +15,9 @@ package main
 
 import (
 	"fmt"
+	"go/ast"
+	"go/parser"
+	"go/token"
 	"go/types"
 	"math/rand"
 	"os"
@@ -151,6 +154,32 @@ func build(r *rand.Rand, n int) (*scenario, error) {
 }
 `, name, extra)}
 	}
+	// range-over-func loops nested in each other, with a function literal in the innermost
+	// body: go/ssa lowers every loop body to a synthetic child of the enclosing body, so the
+	// literal sits three levels below the declaration (Grid0$1$1$1)
+	grid := func(k string) gen.Func {
+		return gen.Func{Name: "Grid0", Sig: gen.SigII, Tags: []string{"nested-range-func"}, Text: `func Grid0(a int, b int) (res int) {
+	for x := range seq(a & 3) {
+		for y := range seq(b & 3) {
+			f := func(z int) int { return z*x + y + ` + k + ` }
+			res += f(x + y)
+			for z := range seq(2) {
+				res += z
+			}
+		}
+	}
+	return res
+}
+`}
+	}
+	base.Funcs = append(base.Funcs, grid("1"))
+	if r.Intn(2) == 0 {
+		keep = append(keep, grid("1"))
+		sc.plan["Grid0"] = "kept"
+	} else {
+		keep = append(keep, grid("2"))
+		sc.plan["Grid0"] = "edited"
+	}
 	base.Funcs = append(base.Funcs, esc("Proc0", ""))
 	keep = append(keep, esc("Aggr0", []string{"\tgo trace(res)\n", "\tfor j := 0; j < b&3; j++ {\n\t\tgo trace(j)\n\t}\n"}[r.Intn(2)]))
 	sc.plan["Proc0"] = "renamed"
@@ -158,6 +187,45 @@ func build(r *rand.Rand, n int) (*scenario, error) {
 	nf.Funcs = keep
 	sc.new = nf
 	return sc, nil
+}
+
+type sourceFunc struct {
+	name string
+	lits int
+}
+
+// sourceFuncs lists, from the syntax alone, the plain functions a file declares with a body
+// and how many function literals and range-over-func loop bodies each contains.
+func sourceFuncs(src string) []sourceFunc {
+	f, err := parser.ParseFile(token.NewFileSet(), "x.go", src, parser.SkipObjectResolution)
+	if err != nil {
+		return nil
+	}
+	var out []sourceFunc
+	for _, d := range f.Decls {
+		fd, ok := d.(*ast.FuncDecl)
+		if !ok || fd.Body == nil || fd.Recv != nil || fd.Type.TypeParams != nil || fd.Name.Name == "_" || fd.Name.Name == "init" {
+			continue
+		}
+		sf := sourceFunc{name: fd.Name.Name}
+		ast.Inspect(fd.Body, func(n ast.Node) bool {
+			switch n := n.(type) {
+			case *ast.FuncLit:
+				sf.lits++
+			case *ast.RangeStmt:
+				// the prelude's seq(n) is the one iterator constructor of the generated files:
+				// a loop over its result is a range-over-func loop, whose body is a function
+				if c, ok := n.X.(*ast.CallExpr); ok {
+					if id, ok := c.Fun.(*ast.Ident); ok && id.Name == "seq" {
+						sf.lits++
+					}
+				}
+			}
+			return true
+		})
+		out = append(out, sf)
+	}
+	return out
 }
 
 func shortNames(rs []diff.FingerprintResult) []string {
@@ -405,6 +473,35 @@ func run(res *evid.Result, idx int, root string) {
 	for n := range newSeen {
 		if !inNew[n] {
 			res.Violate("account/phantom-new-function", fmt.Sprintf("the report lists %s as a new function, the new file has none", n), replay)
+		}
+	}
+	// S: an enumeration of the functions of each file that does not go through the
+	// fingerprinter: every plain (receiver-less, non-generic) function declared with a body,
+	// and one further function per function literal and per `range seq(..)` loop body written
+	// inside it, has an entry.
+	for side, src := range []string{oldSrc, newSrc} {
+		seen := oldSeen
+		label := "old"
+		if side == 1 {
+			seen, label = newSeen, "new"
+		}
+		for _, sf := range sourceFuncs(src) {
+			res.Eval(1)
+			have := 0
+			for n := range seen {
+				if n == sf.name || strings.HasPrefix(n, sf.name+"$") {
+					have++
+				}
+			}
+			if sf.lits > 0 {
+				res.Count("source_functions_with_literals_cross_checked", 1)
+			}
+			switch {
+			case seen[sf.name] == 0:
+				res.Violate("account/source-function-without-entry/declared", fmt.Sprintf("the %s file declares %s (with a body), no entry of the report lists it", label, sf.name), replay)
+			case have < 1+sf.lits:
+				res.Violate("account/source-function-without-entry/literal", fmt.Sprintf("the %s file declares %s with %d function literals and range-over-func bodies inside, the report lists only %d functions under that name", label, sf.name, sf.lits, have), replay)
+			}
 		}
 	}
 	// name-identical functions paired with each other
